@@ -2,6 +2,7 @@
    abstract carrier (instantiated at binary64 floats for bit-exact correspondence and at Q for non-vacuity).
    Definitions only. *)
 From Coq Require Import List Bool.
+From BqGen Require Import GenGradDescent.
 Import ListNotations.
 
 Section GD.
@@ -9,12 +10,16 @@ Section GD.
   Variables (add sub mul div : T -> T -> T) (abs : T -> T) (ltb leb eqb : T -> T -> bool).
   Variables (two eps : T).
 
+  (* the arithmetic and the tests of the loop are the terms translated from analysis.py (GenGradDescent.v), read over
+     this carrier *)
+  Definition ops : gd_ops T := Build_gd_ops T add sub mul div abs ltb leb eqb two.
+
   (* Python's min(a, b) / max(a, b): the first argument unless the second is strictly smaller / larger *)
-  Definition pmin (a b : T) : T := if ltb b a then b else a.
-  Definition pmax (a b : T) : T := if ltb a b then b else a.
+  Definition pmin (a b : T) : T := GenGradDescent.pmin ops a b.
+  Definition pmax (a b : T) : T := GenGradDescent.pmax ops a b.
 
   (* _numerical_gradient *)
-  Definition grad (f : T -> T) (v : T) : T := div (sub (f (add v eps)) (f (sub v eps))) (mul two eps).
+  Definition grad (f : T -> T) (v : T) : T := gen_gd_grad ops f v eps.
 
   Inductive gd_result :=
   | GDOk (optimal cost : T) (hist : list T)
@@ -28,23 +33,23 @@ Section GD.
     | O => None
     | S n' =>
         let g := grad f cur in
-        let vel' := sub (mul mom vel) (mul lr g) in
-        let nxt := add cur vel' in
+        let vel' := gen_gd_velocity ops mom vel lr g in
+        let nxt := gen_gd_next ops cur vel' in
         match bounds with
         | Some (b0, b1) =>
-            let nx := pmax (pmin nxt b1) b0 in
-            if eqb nx b0 || eqb nx b1 then Some (nx, nx :: hist)
-            else if ltb (abs g) tol then Some (cur, hist)
+            let nx := gen_gd_clip ops nxt b0 b1 in
+            if gen_gd_hit ops nx b0 b1 then Some (nx, nx :: hist)
+            else if gen_gd_converged ops g tol then Some (cur, hist)
                  else gd_loop n' f bounds lr tol mom nx vel' (nx :: hist)
         | None =>
-            if ltb (abs g) tol then Some (cur, hist)
+            if gen_gd_converged ops g tol then Some (cur, hist)
             else gd_loop n' f bounds lr tol mom nxt vel' (nxt :: hist)
         end
     end.
 
   Definition gradient_descent (zero : T) (f : T -> T) (x0 : T) (bounds : option (T * T)) (lr : T) (max_iter : nat) (tol mom : T)
     : gd_result :=
-    let in_bounds := match bounds with Some (b0, b1) => leb b0 x0 && leb x0 b1 | None => true end in
+    let in_bounds := match bounds with Some (b0, b1) => gen_gd_start_ok ops x0 b0 b1 | None => true end in
     if negb in_bounds then GDValueError
     else match gd_loop max_iter f bounds lr tol mom x0 zero [x0] with
          | Some (cur, hist) => GDOk cur (f cur) (rev hist)
